@@ -106,7 +106,7 @@ func (w *world) prime(cs caseSpec) error {
 	} else {
 		w.primersPassed++
 	}
-	if w.dump() != w.base {
+	if w.changed() {
 		w.dirty = true
 		return fmt.Errorf("primer changed the state (%s, valid token %q before %s)", cs.Cfg.label(), cs.After, requestLine(cs))
 	}
